@@ -34,13 +34,13 @@ CLAUSES = {
     "Act_C08_LiquidityCap": "C08", "Obs_Grid": "C08", "Step_FillOrKill_ShouldFill": "C08",
     "Inv_C09_TotalFee": "C09", "Obs_FeesOnlyInQuote": "C09",
     "Act_C10_GrantedImpliesMargin": "C10", "Inv_C10_NoLendingNoLoans": "C10",
-    "Act_C11_LoanClosure": "C11", "Step_OutInt": "C11", "Step_AutoRepay": "C11",
+    "Act_C11_LoanClosure": "C11", "Step_OutInt": "C11", "Step_AutoRepay": "C11", "Inv_C11_OpenUnpaid": "C11",
 }
 # Clauses that only read what the implementation reported (balances, orders, loans, listings) plus data fixed by the script
 # (request fields, bars, conditions in force): they are judged at EVERY step, because the validator re-synchronises with the
 # implementation's observables after each step.  Clauses that read the spec's hidden bookkeeping (per-order reservations,
 # the stop latch, auto-repay attribution) are only judged at the first step where implementation and spec part ways.
-ROBUST = {"Obs_LoanListings", "Inv_C01_Conservation", "Inv_C02_NonNegative", "Inv_C02_BorrowedIsOpenPrincipal", "Obs_TotalIsAvailPlusHoldMinusBorrowed",
+ROBUST = {"Act_C11_LoanClosure", "Inv_C11_OpenUnpaid", "Obs_LoanListings", "Inv_C01_Conservation", "Inv_C02_NonNegative", "Inv_C02_BorrowedIsOpenPrincipal", "Obs_TotalIsAvailPlusHoldMinusBorrowed",
           "Act_C04_OnlyBarsFill", "Inv_C05_OrderShape", "Act_C05_Lifecycle", "Act_C05_FillOrKill", "Obs_Listings", "Obs_Remaining",
           "Inv_C06_NoOpenNoHold", "Inv_C06_HoldLeBalance", "Act_C07_RejectedUnchanged", "Act_C08_LiquidityCap", "Obs_Grid",
           "Inv_C09_TotalFee", "Obs_FeesOnlyInQuote", "Act_C10_GrantedImpliesMargin", "Inv_C10_NoLendingNoLoans"}
@@ -272,7 +272,15 @@ def magnitude_limit(cfg: dict, steps) -> int:
     pmax = max([1] + [max(s["arg"]["h"], s["arg"]["o"]) for s in steps if s["kind"] == "bar"])
     req = max([1] + [c["reqN"] for c in list(cfg["cond"].values()) + list(cfg.get("condAlt", {}).values())]) * max(1, cfg["reqD"])
     ld = max(1, cfg["vlD"] * cfg["vs"])
-    return max(1000, (2**31 - 1) // (pmax * smax * cfg["pm"] * req * len(cfg["syms"]) * 2 * ld))
+    # values through an inverse pair are carried multiplied by the inverse prices (KAll in ExchangeCore.tla) and by pm^2 * scale[Q]
+    kall = 1
+    if cfg.get("inverse") and cfg["lendMode"] == "margin":
+        q = cfg["quoteSym"]
+        for k, p in enumerate(cfg["pairs"], start=1):
+            if p["b"] == q:         # Q/x: x is valued through 1 / price
+                kall *= max([1] + [max(s["arg"]["h"], s["arg"]["o"]) for s in steps if s["kind"] == "bar" and s["arg"]["p"] == k])
+        kall *= cfg["pm"] * cfg["scale"][q]
+    return max(1000, (2**31 - 1) // (pmax * smax * cfg["pm"] * req * len(cfg["syms"]) * 2 * ld * kall))
 
 
 def slim(tr: dict, tid: int) -> dict:
@@ -306,36 +314,50 @@ def validate(traces: List[dict], wd: str, rep: Optional[Report], shards: int = N
     if not traces:
         return {}
     shards = shards or min(tlc.NCPU, max(1, len(traces) // 20))
-    paths = []
-    for k in range(shards):
-        part = traces[k::shards]
-        if not part:
-            continue
-        path = os.path.join(wd, f"ex-{os.getpid()}-{random.getrandbits(32):x}-{k}.ndjson")
-        with open(path, "w") as f:
-            for tr in part:
-                f.write(json.dumps(tr) + "\n")
-        paths.append(path)
+    parts = [traces[k::shards] for k in range(shards) if traces[k::shards]]
     from concurrent.futures import ThreadPoolExecutor
+    skipped: List[int] = []
 
-    def one(path):
-        return tlc.run("ExchangeTrace", tlc.cfg_text(postcondition="AllConsumed"), workdir=wd, mode="trace",
-                       env={"TRACE_FILE": path}, timeout=3600, dump_trace=False, java_heap="2g")
-    with ThreadPoolExecutor(len(paths)) as ex:
-        results = list(ex.map(one, paths))
+    def one(part):
+        """One JVM per batch.  TLC's integers are 32 bit: a trace whose amounts overflow an intermediate product in spite of
+        the magnitude guard aborts the JVM; it is then set aside (counted as unjudged) and the rest of the batch is re-run."""
+        out, todo, last = [], list(part), None
+        while todo:
+            path = os.path.join(wd, f"ex-{os.getpid()}-{random.getrandbits(40):x}.ndjson")
+            with open(path, "w") as f:
+                for tr in todo:
+                    f.write(json.dumps(tr) + "\n")
+            res = tlc.run("ExchangeTrace", tlc.cfg_text(postcondition="AllConsumed"), workdir=wd, mode="trace",
+                          env={"TRACE_FILE": path}, timeout=3600, dump_trace=False, java_heap="2g",
+                          tolerate="Overflow when computing")
+            os.unlink(path)
+            out += res.emitted
+            last = res
+            if res.ok:
+                break
+            if "Overflow when computing" not in res.tail:
+                raise tlc.MachineryError("trace validation failed: " + res.tail[-2000:])
+            done = {v["id"] for v in res.emitted}
+            k = next(i for i, tr in enumerate(todo) if tr["id"] not in done)
+            skipped.append(todo[k]["id"])
+            out.append({"id": todo[k]["id"], "steps": len(todo[k]["steps"]), "judged": 0, "dead": False, "viol": [], "overflow": True})
+            todo = todo[k + 1:]
+        return last, out
+    with ThreadPoolExecutor(len(parts)) as ex:
+        pairs = list(ex.map(one, parts))
+    results = [r for r, _ in pairs if r is not None]
     verdicts = {}
-    for res, path in zip(results, paths):
-        if not res.ok:
-            raise tlc.MachineryError("trace validation failed: " + res.tail[-2000:])
-        for v in res.emitted:
+    for _, out in pairs:
+        for v in out:
             verdicts[v["id"]] = v
-        os.unlink(path)
+    if rep is not None and skipped:
+        rep.extra["traces_unjudged_integer_overflow"] = rep.extra.get("traces_unjudged_integer_overflow", 0) + len(skipped)
     if rep is not None:
         agg = results[0]
         agg.distinct = sum(r.distinct for r in results)
         agg.generated = sum(r.generated for r in results)
         agg.wall_s = max(r.wall_s for r in results)
-        rep.add_tlc("ExchangeTrace/TRACE", agg, None, f"{len(traces)} implementation traces in {len(paths)} TLC batches")
+        rep.add_tlc("ExchangeTrace/TRACE", agg, None, f"{len(traces)} implementation traces in {len(parts)} TLC batches")
     missing = [t["id"] for t in traces if t["id"] not in verdicts]
     if missing:
         raise tlc.MachineryError(f"no verdict for traces {missing[:5]}")
@@ -752,6 +774,10 @@ def check(rep: Report, tier: str, seed: int, prop: str = None):
             lift = {}
             if rng.random() < 0.5:
                 lift = {"BTC": rng.choice([0, 2, 5]), "ETH": rng.choice([0, 3]), "USD": rng.choice([0, 1, 4])}
+            elif rng.random() < 0.3:
+                # very fine precisions (16 .. 24 decimals): amounts far below any "dust" tolerance, quantisation beyond 18 digits
+                hi = rng.choice([14, 18, 22])
+                lift = {"BTC": hi - 2, "ETH": hi - 2, "USD": hi, "EUR": hi - 2, "ARS": hi}
             nb = rng.choice([8, 15, 30]) if quick or rng.random() < 0.9 else 320
             jobs.append(("random", (rng.getrandbits(40), profile if rng.random() < 0.7 else "mixed", nb, lift)))
         jobs += [("script", sc) for sc in corpus()]
